@@ -242,3 +242,18 @@ func compact(v any) string {
 	}
 	return s
 }
+
+// Findings returns the findings recorded so far, in the order they were added
+// (used by worker processes that forward them to the parent).
+func (r *Report) Findings() []*Finding {
+	r.mu.Lock()
+	defer r.mu.Unlock()
+	var out []*Finding
+	for _, k := range r.order {
+		out = append(out, r.findings[k])
+	}
+	return out
+}
+
+// Samples returns the samples kept so far.
+func (r *Report) Samples() []any { r.mu.Lock(); defer r.mu.Unlock(); return append([]any{}, r.samples...) }
